@@ -21,7 +21,11 @@ and last point (and every order-insensitive digest) but permuted interior points
 called alternately with identical requests, and the same request arrays modified in place between calls must each give
 TLC's value for every point.  Request presentation: the same points as Fortran-ordered arrays, transposed / strided /
 reversed / sliced / broadcast views, read-only arrays, lon and lat in different layouts, 1-d / 3-d / 0-d requests and Python
-floats (three of these per sampler and table, in rotation) must give TLC's value at every point in the request's own shape.  "sky" tables are also pushed through plate_carree_galactic_sampler (same battery) at the
+floats, lon and lat being one array object or overlapping views of one array (three of these per sampler and table, in
+rotation per sampler) must give TLC's value at every point in the request's own shape.  The battery's own request points are
+read-only (ordinary calls get writeable copies), and every answer returned during a battery is held and compared with TLC's
+table AGAIN after the battery's last call (key ...:held-answer: answers belong to the caller).  A sampler that writes into
+a writeable request array without giving a wrong answer is reported as drift.  "sky" tables are also pushed through plate_carree_galactic_sampler (same battery) at the
 ICRS coordinates whose Galactic image (astropy, trusted) are the table's angles.
 """
 import json
@@ -38,11 +42,11 @@ SAMPLER_OF = {
 }
 LAYOUTS = ["sky", "zeroright", "planet", "zeroleft"]
 # how the caller may present one and the same set of request points
-REQUEST_LAYOUTS = ["Fortran-ordered arrays", "transposed views", "lon Fortran-ordered, lat C-ordered", "strided views of larger arrays",
+REQUEST_LAYOUTS = ["lon and lat the same array object", "Fortran-ordered arrays", "transposed views", "lon Fortran-ordered, lat C-ordered", "strided views of larger arrays",
                    "views with negative strides", "1-d request", "non-contiguous column slices", "read-only arrays",
-                   "lon C-ordered, lat a transposed view", "3-d request", "broadcast views (zero strides)", "0-d request", "Python floats"]
+                   "lon C-ordered, lat a transposed view", "lon and lat overlapping views of one array", "3-d request", "broadcast views (zero strides)", "0-d request", "Python floats"]
 LAYOUTS_PER_BATTERY = 3
-layout_counter = [0]
+layout_counter = {}          # per sampler name: every sampler meets every presentation in turn
 
 CFG = """SPECIFICATION Spec
 CONSTANTS
@@ -140,14 +144,37 @@ def replay_table(ctx, rec, S, gal_tools):
             "lon_unit": "2*pi/%d" % (4 * nx * g), "lat_unit": "pi/%d" % (4 * ny * g)}
     n = 0
 
+    held = []
+
+    def recheck_held():
+        """every answer handed out during the battery still is what it was: the arrays a sampler returned belong to the caller"""
+        for name, label, raw, want, decode, before, hist in held:
+            val, consistent = decode(np.asarray(raw))
+            ok = ((val[..., None] == want).any(axis=-1) & consistent).reshape(-1)
+            bad = np.flatnonzero(~ok)
+            if len(bad):
+                first = int(bad[0])
+                adm = sorted(set(int(x) for x in want.reshape(ok.size, -1)[first]))
+                o = int(np.asarray(val).reshape(-1)[first])
+                ctx.violation("C11:%s:held-answer" % name,
+                              "%s, %dx%d (ny x nx) %s map: an answer that was right when it was returned has changed by the end of the battery "
+                              "of calls: at lon=%.17g lat=%.17g it held the value of %s and now holds that of (row %d, col %d); %d of %d points "
+                              "changed (request shape %s)%s"
+                              % (name, ny, nx, label, float(before[0].reshape(-1)[first]), float(before[1].reshape(-1)[first]),
+                                 ", ".join("(row %d, col %d)" % (a // nx, a % nx) for a in adm), o // nx, o % nx, len(bad), ok.size,
+                                 before[0].shape, hist), dict(case, request_shape=list(before[0].shape)))
+        del held[:]
+
     def judge_out(name, label, call, lon_a, lat_a, want, colour, decode, what="cell", hist=""):
         """call() -> sampler output for the request (lon_a, lat_a); want[..., i] = admissible arange-map values;
         decode(out) -> arange-map value per point (and False where the colour planes are inconsistent)."""
         nonlocal n
         key = "C11:%s" % name
         n += 1
+        before = (np.array(lon_a, dtype=float, copy=True), np.array(lat_a, dtype=float, copy=True))
         try:
-            out = np.asarray(call())
+            raw = call()
+            out = np.asarray(raw)
         except Exception as e:  # noqa - an IndexError is "indexes outside the map"; anything else is no answer at all
             ctx.violation(key + ":raises", "%s on a %dx%d %s map raised %r for a request of shape %s%s"
                           % (name, ny, nx, label, e, np.shape(lon_a), hist), dict(case, request_shape=list(np.shape(lon_a))))
@@ -158,11 +185,17 @@ def replay_table(ctx, rec, S, gal_tools):
                           % (name, label, (ny, nx) + colour, req_shape, out.shape, req_shape + colour, hist),
                           dict(case, request_shape=list(req_shape)))
             return False
+        # the request arrays are the caller's.  A sampler that writes into them has not broken a sentence of the property (the
+        # values denote the same sky points modulo 2*pi as long as the answers are right), so this alone is drift.
+        if not (np.array_equal(before[0], np.asarray(lon_a, dtype=float)) and np.array_equal(before[1], np.asarray(lat_a, dtype=float))):
+            ctx.drift("%s modified the caller's request arrays (%dx%d %s map, request shape %s)%s" % (name, ny, nx, label, req_shape, hist))
         val, consistent = decode(out)
         ok = ((val[..., None] == want).any(axis=-1) & consistent).reshape(-1)
         bad = np.flatnonzero(~ok)
+        if not len(bad) and isinstance(raw, np.ndarray):
+            held.append((name, label, raw, want, decode, before, hist))       # the answer is the caller's too: looked at again later
         if len(bad):
-            lon_f, lat_f = np.asarray(lon_a, dtype=float).reshape(-1), np.asarray(lat_a, dtype=float).reshape(-1)   # logical (C) order
+            lon_f, lat_f = before[0].reshape(-1), before[1].reshape(-1)   # logical (C) order, as passed
             first = int(bad[int(np.argmin(np.abs(lon_f[bad])))])                  # report the mismatch nearest lon 0
             lo, la = float(lon_f[first]), float(lat_f[first])
             adm = sorted(set(int(x) for x in want.reshape(ok.size, -1)[first]))
@@ -191,9 +224,15 @@ def replay_table(ctx, rec, S, gal_tools):
         """one sampler factory, one request grid: maps, request shapes, then the call-history sequence"""
         f_scalar = make(scalar_map)
         flat = (1, LONr.size)
+        # the battery's own copy of the request points is read-only: a sampler that scribbles on a request can spoil only the
+        # call it was given, never the points of the later calls.  Ordinary calls get fresh writeable arrays.
+        LONr, LATr = np.array(LONr, dtype=float), np.array(LATr, dtype=float)
+        LONr.setflags(write=False)
+        LATr.setflags(write=False)
+        a1, b1, a2, b2 = LONr.copy(), LATr.copy(), LONr.copy(), LATr.copy()
         base_ok = all([
-            judge_out(name, "scalar", lambda: f_scalar(LONr, LATr), LONr, LATr, want, (), dec_scalar),
-            judge_out(name, "RGB", lambda: make(rgb_map)(LONr, LATr), LONr, LATr, want, (3,), dec_rgb),
+            judge_out(name, "scalar", lambda: f_scalar(a1, b1), a1, b1, want, (), dec_scalar),
+            judge_out(name, "RGB", lambda: make(rgb_map)(a2, b2), a2, b2, want, (3,), dec_rgb),
             # other request shapes: transposed grid, a single row, a single point
             judge_out(name, "RGB", lambda: make(rgb_map)(LONr.T.copy(), LATr.T.copy()), LONr.T.copy(), LATr.T.copy(),
                       np.transpose(want, (1, 0, 2)), (3,), dec_rgb),
@@ -202,6 +241,7 @@ def replay_table(ctx, rec, S, gal_tools):
             judge_out(name, "scalar", lambda: make(scalar_map.tolist())(LONr[:1, :1], LATr[:1, :1]), LONr[:1, :1], LATr[:1, :1],
                       want[:1, :1], (), dec_scalar)])
         if not base_ok:
+            del held[:]
             return          # already wrong without any history: reported above, nothing more to learn from sequences
         # ---- the memory layout / dimensionality of the request is the caller's business: the same points presented as
         # Fortran-ordered arrays, views (transposed, strided, reversed, sliced, broadcast), read-only arrays, lon and lat in
@@ -209,11 +249,27 @@ def replay_table(ctx, rec, S, gal_tools):
         # A few of the layouts per battery, in rotation, so that every sampler meets every layout many times per run.
         nj, nk = LONr.shape
         for _ in range(LAYOUTS_PER_BATTERY):
-            which = layout_counter[0] % len(REQUEST_LAYOUTS)
-            layout_counter[0] += 1
+            which = layout_counter.get(name, 0) % len(REQUEST_LAYOUTS)
+            layout_counter[name] = layout_counter.get(name, 0) + 1
             lay = REQUEST_LAYOUTS[which]
             lon_v = lat_v = want_v = None
-            if lay == "Fortran-ordered arrays":
+            if lay in ("lon and lat the same array object", "lon and lat overlapping views of one array"):
+                # angles that are both a longitude and a latitude of TLC's table (same float up to the last bits)
+                lon1, lat1 = LONr[0], LATr[:, 0]
+                if (LONr == lon1).all() and (LATr == lat1[:, None]).all():
+                    d = np.abs(lon1[None, :] - lat1[:, None])
+                    aa, bb = np.nonzero(d < 1e-12)
+                    keep = np.abs(lat1[aa]) < math.pi / 2 - 1e-9
+                    aa, bb = aa[keep], bb[keep]
+                    if len(aa) >= 2 and lay == "lon and lat the same array object":
+                        both = np.array(lat1[aa]).reshape(1, -1)                # one array, passed as lon AND as lat
+                        lon_v = lat_v = both
+                        want_v = want[aa, bb].reshape((1, len(aa)) + want.shape[2:])
+                    elif len(aa) >= 3:
+                        chain = np.array(lat1[aa])                             # lon = chain[:-1], lat = chain[1:], one buffer
+                        lon_v, lat_v = chain[:-1].reshape(1, -1), chain[1:].reshape(1, -1)
+                        want_v = want[aa[1:], bb[:-1]].reshape((1, len(aa) - 1) + want.shape[2:])
+            elif lay == "Fortran-ordered arrays":
                 lon_v, lat_v, want_v = np.asfortranarray(LONr), np.asfortranarray(LATr), want
             elif lay == "lon Fortran-ordered, lat C-ordered":
                 lon_v, lat_v, want_v = np.asfortranarray(LONr), np.ascontiguousarray(LATr), want
@@ -291,6 +347,7 @@ def replay_table(ctx, rec, S, gal_tools):
             buf_lat[...] = LATb
             judge_out(name, "scalar", lambda: f_scalar(buf_lon, buf_lat), buf_lon, buf_lat, wantb, (), dec_scalar, "history",
                       h % "the same request arrays, modified in place since the previous call")
+        recheck_held()
 
     name = SAMPLER_OF[v]
     requests = grid_renderings(rec) if grid else [(lon, lat)]
@@ -314,7 +371,7 @@ def replay_table(ctx, rec, S, gal_tools):
 
 def run(ctx):
     repo.setup(ctx)
-    layout_counter[0] = 0
+    layout_counter.clear()
     import numpy as np  # noqa
     from toasty import samplers as S
     from astropy.coordinates import SkyCoord, Galactic
@@ -355,7 +412,7 @@ def run(ctx):
     ntab = 0
     for cfgs in runs:
         r = ctx.tlc("MCPlateCarree", extra={"MCPlateCarree.tla": mc_module(cfgs)}, cfg_text=CFG, workers=8, timeout=3000)
-        recs = r.json_lines("T")
+        recs = sorted(r.json_lines("T"), key=lambda q: (q["nx"], q["ny"], q["g"], q["mode"], q["v"]))    # TLC prints in worker order
         if len(recs) != len(cfgs):
             ctx.machinery("TLC emitted %d tables for %d configurations" % (len(recs), len(cfgs)))
         for rec in recs:
